@@ -1404,6 +1404,12 @@ func c13JsonTextComponent(g *G, n int, opts map[string]string) *Out {
 			continue
 		}
 		c.GoText = string(js)
+		if strings.Contains(c.GoText, "\\") {
+			// the encoder escaped something (also <, > and &, which it writes as \u003c ...): outside this model's
+			// fragment; the escape-aware model and the component jsonesc cover it
+			o.count("skipped-outside-fragment")
+			continue
+		}
 		var back interface{}
 		c.Back = json.Unmarshal(js, &back) == nil && canon(back) == canon(c.Val)
 		term := fmt.Sprintf("(mk_jtcase %s %s %s %s %s)", c13CoqStringLit(c.Text), gov, mustCoqJSON(c.Val), c13CoqStringLit(c.GoText), coqBool(c.Back))
